@@ -455,6 +455,10 @@ class _InternalBaseTracer(_InternalBaseTracerSuper, metaclass=MetaTracerStateMac
                     return self._make_composed_tracer(existing_ret)
                 elif my_ret is None:
                     return existing_ret
+            elif not callable(my_ret):
+                # e.g. the (type, value, traceback) argument of an 'exception' event when no
+                # handler is registered for it: never hand that to the interpreter as f_trace
+                return None
             return my_ret
 
         return _composed_tracer
